@@ -634,8 +634,18 @@ class ListenerRequestHandler(BaseHTTPRequestHandler):
         # Content-Range, Expires, If-Range, Range.
 
         # Start processing the request
-        content_len = int(self.headers.get('Content-Length', 0))
-        body = self.rfile.read(content_len)
+        try:
+            content_len = int(self.headers.get('Content-Length', 0))
+            if content_len < 0:
+                raise ValueError("negative value")
+            body = self.rfile.read(content_len)
+        except (ValueError, OverflowError, MemoryError):
+            # Not a number, negative, or too large to ever be received
+            self.send_http_error(
+                400, 'header-mismatch',
+                _format("Invalid Content-Length header value: {0!A}",
+                        self.headers.get('Content-Length')))
+            return
 
         try:
             msgid, methodname, params = self.parse_export_request(body)
